@@ -153,15 +153,21 @@ def bad_matchers(ctx, case):
     logging.disable(logging.CRITICAL)
     from frontends.tui import arguments
     opt = ctx.choose(['-f', '-b', '--filter', '--break'], 'option')
-    text = ctx.choose(['(', 'a(b', 'x@y@z', '[a', 'a.b.c', 'a=b', '"', 'a:b:c', 'wl_surface(7'], 'text')
+    text = ctx.choose(['(', 'a(b', 'x@y@z', '[a', 'a.b.c', 'a=b', '"', 'a:b:c', 'wl_surface(7',
+                       # well-formed values, among them every documented way to start a matcher (`@5` = the object with id 5)
+                       '@5', '@5a', 'wl_surface@5', '*', '!', 'A: wl_pointer', '[wl_a, wl_b ! .c]', '.motion(x=1)', '! @7'], 'text')
     saved = arguments.check_gdb
     arguments.check_gdb = lambda: False
     raised = None
+    exited = False
+    a = None
     try:
         with contextlib.redirect_stdout(io.StringIO()), contextlib.redirect_stderr(io.StringIO()):
-            arguments.parse_args(['main.py', opt, text, '-l', 'x.log'])
+            a = arguments.parse_args(['main.py', opt, text, '-l', 'x.log'])
     except RuntimeError as e:
         raised = e
+    except SystemExit:
+        exited = True
     finally:
         arguments.check_gdb = saved
     from core import matcher
@@ -170,7 +176,11 @@ def bad_matchers(ctx, case):
         malformed = False
     except RuntimeError:
         malformed = True
+    ctx.check('a -f/-b value is never taken for something other than a matcher (usage error / exit)', not exited)
     ctx.check('a malformed -f/-b value is reported as an error, not ignored', (raised is not None) == malformed)
+    if not malformed and a is not None:
+        got = a.filter_matcher if opt in ('-f', '--filter') else a.stop_matcher
+        ctx.check('a well-formed -f/-b value `%s` becomes the matcher that text denotes' % text, str(got) == str(matcher.parse(text).simplify()) or str(got) == str(matcher.parse(text)))
     if raised is not None:
         ctx.check('the error names the option', ('filter' if opt in ('-f', '--filter') else 'break') in str(raised))
 
@@ -285,7 +295,7 @@ def obligations(tier):
         Ob('select-mode', 'symx', 'exactly one of run / gdb / load / pipe / in-GDB', FUNCS[3:4], 'all 3 x 2 x 3 x 2 combinations', select_mode, cases=[None], stubs=['check_gdb stubbed']),
         Ob('parse-args-forwarding', 'symx', 'real parse_args: forwarded words (symbolic, or spelled like our options) come back as the identical objects; our side is interpreted', FUNCS[4:5],
            '5 left parts x 6 marker spellings x 5 forwarded vectors', parse_args_forwarding, cases=[None], stubs=['check_gdb stubbed', 'stdout/stderr captured']),
-        Ob('malformed-matchers', 'symx', '-f/-b values are parsed as matchers; malformed ones raise', FUNCS[4:5], '4 option spellings x 9 texts', bad_matchers, cases=[None]),
+        Ob('malformed-matchers', 'symx', '-f/-b values are parsed as matchers; malformed ones raise', FUNCS[4:5], '4 option spellings x 18 texts (9 malformed, 9 well-formed incl. values starting with @ * ! [ .)', bad_matchers, cases=[None]),
         Ob('gdb-quoting', 'symx', 'run_gdb: words reach the in-GDB sys.argv literal only through repr(); forwarded words verbatim after `gdb -ex <cmd>`', FUNCS[5:6],
            '0..3 opaque words (any content); replay on %d hostile concrete words' % len(HOSTILE), gdb_quoting, cases=[0, 1, 2, 3], stubs=['subprocess replaced by a recorder', 'verify_gdb_available stubbed']),
         Ob('run-mode-forwarding', 'symx', 'run mode: the words after -r reach the started program verbatim, as one argv entry each (the C13 environment model, child part)',
